@@ -17,8 +17,9 @@ META = {
                  'failoverStatus and expiry timer); every recorded call is judged by TLC (trace validation)',
     'level_text': 'TLC enumerates every sequence of leader reports (from in-sync followers, non-ISR replicas, the '
                   'leader itself and a non-replica id; repeated; current and stale (leader, epoch) pairs), timer '
-                  'expiries, ISR shrink/expand requests with current or stale pairs, controller leadership loss and '
-                  'stream removal within the bounds and proves the step predicates P_* (election only with more than '
+                  'expiries, ISR shrink/expand requests with current or stale pairs, controller leadership loss, '
+                  'rebuilds of the partition object from its persisted form (pause + resume), requests for which no '
+                  'Raft entry can be replicated (failed election attempts) and stream removal within the bounds and proves the step predicates P_* (election only with more than '
                   'half of the in-sync followers as witnesses in the current window, new leader in the ISR and not the '
                   'reported one, epochs strictly increasing, one leader per epoch, stale requests refused without '
                   'change - also when a report is overtaken by another report\'s election between its pair check and '
@@ -60,7 +61,8 @@ def features(b):
 def nontrivial(b):
     """at least two reports and one of expire / ISR change / controller loss / a stale pair"""
     n = sum(1 for s in b['steps'] if s['a'] == 'Report' and s['ps'] == 'cur')
-    other = any(s['a'] in ('Expire', 'Shrink', 'Expand', 'Lose') or s.get('ps', 'cur') != 'cur' for s in b['steps'])
+    other = any(s['a'] in ('Expire', 'Shrink', 'Expand', 'Lose', 'Rebuild') or s.get('ps', 'cur') != 'cur'
+                or s.get('ok') is False for s in b['steps'])
     return n >= 2 and other
 
 
@@ -176,7 +178,7 @@ def counterexample(out):
 def label_step(lab):
     name, args = graph.parse_label(lab)
     if name == 'MCReport':
-        return {'a': 'Report', 'w': args[0], 'ps': args[1], 'pref': args[2]}
+        return {'a': 'Report', 'w': args[0], 'ps': args[1], 'pref': args[2], 'ok': args[3]}
     if name == 'MCReportCheck':
         return {'a': 'ReportCheck', 'w': args[0], 'ps': args[1]}
     if name == 'MCReportApply':
@@ -186,10 +188,10 @@ def label_step(lab):
     if name == 'MCISRApply':
         return {'a': 'ISRApply', 'i': args[0]}
     if name == 'MCShrink':
-        return {'a': 'Shrink', 'r': args[0], 'ps': args[1]}
+        return {'a': 'Shrink', 'r': args[0], 'ps': args[1], 'ok': args[2]}
     if name == 'MCExpand':
-        return {'a': 'Expand', 'r': args[0], 'ps': args[1]}
-    if name in ('MCExpire', 'MCLose', 'MCRemove'):
+        return {'a': 'Expand', 'r': args[0], 'ps': args[1], 'ok': args[2]}
+    if name in ('MCExpire', 'MCLose', 'MCRemove', 'MCRebuild'):
         return {'a': name[2:]}
     raise core.Inconclusive('unknown action label %r' % lab)
 
@@ -212,7 +214,7 @@ def run(rep, tier, seed, replay):
     # 2. the historically defective variants: TLC's counterexamples become directed stimuli
     directed = []
     for cfg in ('MC_Failover_asshipped.cfg', 'MC_Failover_keepstatus.cfg', 'MC_Failover_countall.cfg',
-                'MC_Failover_countall3.cfg'):
+                'MC_Failover_countall3.cfg', 'MC_Failover_keeponfail.cfg'):
         r2 = core.tlc_check('MC_Failover.tla', cfg, timeout=600, workers=1)
         rep.cov['design_checks'].append({'config': cfg + ' (defective variant, expected to fail)',
                                          'violated': r2['violated'], 'distinct_states': r2['distinct'],
